@@ -8,6 +8,13 @@ itself (ASSUMEs: cells inhabited, planted # base, ids unique, clause total) and 
 renders, compiles and loads; MC_Shapes (MODE=validate) then evaluates the expectation on every recorded observation:
 base accepted and its Lua loads, planted rejected (after the parser). FULL=1 makes TLC also require that the trace
 covers exactly the universe.
+
+SyltShapesFam (TLA+) states two clauses as rules over the program text and varies the constructs they talk about:
+loop-control (LoopControlOk: a walk over the AST) over every function flavour x loop-carrying context x word x position,
+each with and without a loop of the function's own; case-totality (CaseOk) over every multiset of arms (repeats and an
+unknown name included) of enums of 1-3 (thorough: 1-4) variants x bindings x else x statement / expression x scrutinee.
+One program per case, expectation "accept" / "reject" derived by the rule; MC_ShapesFam emits the cases from KEYS and
+re-derives every recorded case from its key when it validates the observations (phase 2b).
 """
 import json
 import os
@@ -17,6 +24,8 @@ import vlib
 PID = "C05"
 VERDICT_WHYS = ("planted-accepted", "planted-panic", "base-panic", "base-does-not-load")
 GENERATOR_WHYS = ("base-rejected", "planted-rejected-by-parser")
+FAM_VERDICT_WHYS = ("invalid-accepted", "invalid-panic", "valid-panic", "valid-does-not-load")
+FAM_GENERATOR_WHYS = ("valid-rejected", "invalid-stopped-by-parser")
 
 
 def dedupe(records):
@@ -48,6 +57,125 @@ def signature(rej):
     return "C05|%s|%s|%s|%s" % (i["kind"], i["shape"], i["ctx"], rej["why"])
 
 
+def fam_signature(rej):
+    # flavours: word x purity x form, purity of the enclosing function (the loop context is in the replay, not the signature);
+    # arm lists: class of the list (unknown / missing / repeat), enum size, kind of scrutinee
+    i = rej["id"]
+    ctx = "any-loop-context" if rej["key"][0] == "flav" else i["ctx"].split("/")[0]
+    return "C05|%s|%s|%s|%s" % (i["kind"], i["shape"], ctx, rej["why"])
+
+
+def fam_record_and_validate(wd, name, cases, maxv, full, env=None):
+    cf = os.path.join(wd, name + "-cases.ndjson")
+    tf = os.path.join(wd, name + "-trace.ndjson")
+    vlib.write_ndjson(cf, cases)
+    vlib.harness("c05", ["famrecord", cf, tf], env=env)
+    recs = vlib.read_ndjson(tf)
+    if [r["key"] for r in recs] != [c["key"] for c in cases]:
+        vlib.tool_error("%s: the recorded keys are not the emitted keys" % name)
+    e = {"MODE": "validate", "TRACE": tf, "MAXV": maxv}
+    if full:
+        e["FULL"] = "1"
+    v = vlib.tlc("MC_ShapesFam", wd=wd, env=e, tags=("REJECT",), workers=4, timeout=1500,
+                 out_file=os.path.join(wd, "tlc-%s.out" % name))
+    rejects = list({p["rec"]: p for (_, p) in v.records}.values())
+    return recs, v, rejects
+
+
+def family_phase(ctx, wd, ev, verdicts, maxv, replay_case=None):
+    """phase 2b: the families of SyltShapesFam. Returns (number of records, number that exercise their rule)."""
+    if replay_case is not None:
+        cases = [replay_case]
+    else:
+        r = vlib.tlc("MC_ShapesFam", wd=wd, env={"MODE": "emit", "MAXV": maxv}, workers=4, timeout=1500,
+                     out_file=os.path.join(wd, "tlc-fam-emit.out"))
+        vlib.require_tlc_ok(r, "MC_ShapesFam emit (universe sanity + emission)")
+        seen = {}
+        for (_, p) in r.records:
+            seen.setdefault(json.dumps(p["key"]), p)
+        cases = list(seen.values())
+        nflav = sum(1 for c in cases if c["key"][0] == "flav")
+        narms = len(cases) - nflav
+        if r.coverage.get("Emit", (0, 0))[1] < len(cases) or nflav < 5000 or narms < 4000:
+            vlib.tool_error("vacuity: families: %d flavour and %d arm cases emitted, Emit fired %s times" % (nflav, narms, r.coverage.get("Emit")))
+        # the classes the clause is about are there: accepted total cases with a repeated arm, rejected cases with as many
+        # arms as variants of which one is a repeat, and both verdicts for both purities of every flavour
+        need = {"arms-repeat-accepted": lambda c: c["id"]["kind"] == "case-arms-repeat" and c["expect"] == "accept" and "/noelse/" in c["id"]["ctx"],
+                "arms-missing+repeat-rejected": lambda c: c["id"]["kind"] == "case-arms-missing+repeat" and c["expect"] == "reject"
+                                                 and len(c["key"][2]) == c["key"][1],
+                "pu-flavour-rejected": lambda c: c["key"][0] == "flav" and c["key"][2] == "pu" and c["expect"] == "reject",
+                "pu-flavour-accepted": lambda c: c["key"][0] == "flav" and c["key"][2] == "pu" and c["expect"] == "accept",
+                "fn-flavour-rejected": lambda c: c["key"][0] == "flav" and c["key"][2] == "fn" and c["expect"] == "reject"}
+        for name, pred in need.items():
+            if sum(1 for c in cases if pred(c)) < 20:
+                vlib.tool_error("vacuity: families: fewer than 20 cases of class %s" % name)
+        ev.add("states", r.distinct)
+        ev.add("transitions", r.generated)
+        ev.set(family_cases={"function-flavours": nflav, "arm-multisets": narms}, family_max_variants=maxv)
+
+    recs, v, rejects = fam_record_and_validate(wd, "fam", cases, maxv, full=replay_case is None)
+    vlib.require_tlc_ok(v, "MC_ShapesFam validate")
+    if v.coverage.get("Validate", (0, 0))[1] < len(recs):
+        vlib.tool_error("vacuity: families: Validate fired %s times for %d records" % (v.coverage.get("Validate"), len(recs)))
+    ngen = 0
+    for rej in rejects:
+        rec = recs[rej["rec"] - 1]
+        case = cases[rej["rec"] - 1]
+        if rej["why"] in FAM_GENERATOR_WHYS:
+            ngen += 1
+            if ngen <= 10:
+                print("NOTE generator (families): %s %s :: %s" % (rej["why"], json.dumps(rej["key"]), rec["obs"]["detail"][:200]))
+            continue
+        if rej["why"] not in FAM_VERDICT_WHYS:
+            vlib.tool_error("unexpected reject class %r" % rej["why"])
+        what = "%s (%s): the rule says %s, observed %s/%s %s" % (
+            rej["why"], rej["clause"], rej["expect"], rec["obs"]["class"], rec["obs"]["loads"], rec["obs"]["detail"][:160])
+        verdicts.add(fam_signature(rej), what, {"fam_case": case, "maxv": maxv, "observed": rec["obs"], "src": rec.get("src")})
+    if ngen * 20 > len(recs):
+        vlib.tool_error("vacuity: families: %d of %d cases do not exercise their rule (valid program rejected / invalid one stopped by the parser)" % (ngen, len(recs)))
+    ev.add("states", v.distinct)
+    ev.add("transitions", v.generated)
+
+    if replay_case is None:
+        # the rejections come from the rule under test, not from something else in the program
+        kinds = {}
+        for x in recs:
+            if x["expect"] == "reject" and x["obs"]["class"] == "err":
+                for kd in x["obs"]["kinds"][:1]:
+                    kinds[x["key"][0] + ":" + kd] = kinds.get(x["key"][0] + ":" + kd, 0) + 1
+        ev.set(family_rejection_kinds=kinds, family_expect={"accept": sum(1 for c in cases if c["expect"] == "accept"),
+                                                            "reject": sum(1 for c in cases if c["expect"] == "reject")},
+               family_generator_problems=ngen, family_rejects=len(rejects),
+               family_samples=[{"key": recs[i]["key"], "id": recs[i]["id"], "expect": recs[i]["expect"], "observed": recs[i]["obs"]["class"],
+                                "error_kinds": recs[i]["obs"]["kinds"]} for i in (0, len(recs) // 3, 2 * len(recs) // 3, len(recs) - 1)])
+        # negative controls: (a) a compiler that answers the opposite on a seeded sample: every record must be rejected
+        rnd = random.Random(ctx.seed + 1)
+        sub = rnd.sample(cases, 80)
+        _, nv, nrej = fam_record_and_validate(wd, "fam-neg-flip", sub, maxv, False, env={"C05_STUB": "flip"})
+        vlib.require_tlc_ok(nv, "families: negative control (flip stub)")
+        good = sum(1 for x in nrej if x["why"] == ("invalid-accepted" if x["expect"] == "reject" else "valid-rejected"))
+        if len(nrej) != len(sub) or good != len(sub):
+            vlib.tool_error("negative control accepted: a compiler answering the opposite was rejected only %d/%d times" % (good, len(sub)))
+        # (b) a record that claims another expectation than the rule derives for its key must stop TLC (Assert)
+        bad = json.loads(json.dumps(recs[:5]))
+        bad[2]["expect"] = "accept" if bad[2]["expect"] == "reject" else "reject"
+        btf = os.path.join(wd, "fam-neg-expect-trace.ndjson")
+        vlib.write_ndjson(btf, bad)
+        bv = vlib.tlc("MC_ShapesFam", wd=wd, env={"MODE": "validate", "TRACE": btf, "MAXV": maxv}, tags=("REJECT",), workers=1,
+                      out_file=os.path.join(wd, "tlc-fam-neg-expect.out"))
+        if bv.ok:
+            vlib.tool_error("negative control accepted: a family record with a corrupted expectation passed validation")
+        # (c) a trace that misses a case must fail the completeness assumption
+        mtf = os.path.join(wd, "fam-neg-missing-trace.ndjson")
+        vlib.write_ndjson(mtf, recs[1:])
+        mv = vlib.tlc("MC_ShapesFam", wd=wd, env={"MODE": "validate", "TRACE": mtf, "MAXV": maxv, "FULL": "1"}, tags=("REJECT",),
+                      workers=1, out_file=os.path.join(wd, "tlc-fam-neg-missing.out"))
+        if mv.ok:
+            vlib.tool_error("negative control accepted: an incomplete family trace passed the completeness assumption")
+        ev.add("negative_controls_rejected", len(nrej) + 2)
+    return len(recs), len(recs) - ngen
+
+
 def unify_phase():
     import importlib.util
     spec = importlib.util.spec_from_file_location("unify_phase", os.path.join(vlib.ROOT, "checks", "unify_phase.py"))
@@ -68,6 +196,16 @@ def run(ctx):
         # a replay of the union-find trace validation (phase 4)
         unify_phase().run(ctx, ev, verdicts, PID, wd)
         ev.set(samples=[json.load(open(ctx.replay))["signature"]], traces_validated_against_impl=1)
+        rc = verdicts.finish()
+        ev.violations = len(verdicts.violations)
+        ev.write()
+        return rc
+    maxv = 3 if tier == "quick" else 4
+    if ctx.replay and "fam_case" in json.load(open(ctx.replay)).get("replay", {}):
+        # a replay of a case of the families (phase 2b)
+        rp = json.load(open(ctx.replay))["replay"]
+        n, _ = family_phase(ctx, wd, ev, verdicts, rp.get("maxv", 4), replay_case=rp["fam_case"])
+        ev.set(samples=[{"key": rp["fam_case"]["key"], "expect": rp["fam_case"]["expect"]}], traces_validated_against_impl=n)
         rc = verdicts.finish()
         ev.violations = len(verdicts.violations)
         ev.write()
@@ -123,9 +261,12 @@ def run(ctx):
         clauses[c["clause"]] = clauses.get(c["clause"], 0) + 1
     effective = len(recs) - ngen
 
+    fam_n = fam_effective = 0
     if not ctx.replay:
         if len(clauses) != 9:
             vlib.tool_error("vacuity: only %d of the 9 clauses have cases" % len(clauses))
+        # 2b. the rule-derived families: function flavours x loop contexts, case arm multisets
+        fam_n, fam_effective = family_phase(ctx, wd, ev, verdicts, maxv)
         # 3. negative controls (binding demonstration) on a seeded sample
         rnd = random.Random(ctx.seed)
         sub = rnd.sample(cases, 60)
@@ -154,7 +295,7 @@ def run(ctx):
                       workers=1, out_file=os.path.join(wd, "tlc-neg-missing.out"))
         if mv.ok:
             vlib.tool_error("negative control accepted: an incomplete trace passed the completeness assumption")
-        ev.set(negative_controls_rejected=len(nrej) + len(nrej2) + 2)
+        ev.add("negative_controls_rejected", len(nrej) + len(nrej2) + 2)
 
         # 4. the deferred shape constraints live in the type checker's union-find: its event log (hooks, --cfg sylt_verif)
         #    must be a behaviour of SyltUnify, constraint counts included
@@ -164,8 +305,8 @@ def run(ctx):
     ev.add("states", v.distinct)
     ev.add("transitions", v.generated)
     sample_ix = [0, len(recs) // 2, len(recs) - 1] if len(recs) > 2 else [0]
-    ev.set(traces_validated_against_impl=len(recs), programs=2 * len(recs), evaluations=2 * len(recs),
-           distinct_nontrivial=effective, cases=len(recs), kinds=len(kinds), cases_per_clause=clauses,
+    ev.set(traces_validated_against_impl=len(recs) + fam_n, programs=2 * len(recs) + fam_n, evaluations=2 * len(recs) + fam_n,
+           distinct_nontrivial=effective + fam_effective, cases=len(recs), kinds=len(kinds), cases_per_clause=clauses,
            rejected_by_compiler=sum(1 for (rj, _) in generator_problems if rj["why"] == "base-rejected"),
            planted_stopped_by_parser=sum(1 for (rj, _) in generator_problems if rj["why"] == "planted-rejected-by-parser"),
            bases_loaded=sum(1 for x in recs if x["base"]["loads"] == "yes"),
@@ -173,11 +314,17 @@ def run(ctx):
            rule="every case of SyltShapes!Cases for a pool of %d member names (sets of size 0-3, generic or not): violation kind x "
                 "declaration shape x context, plus the entry-point programs; each case = accepted base + planted variant, both compiled with "
                 "std, accepted bases loaded in minilua; a case is non-trivial when its base is accepted and its planted variant gets past "
-                "the parser (so the verdict is about the rule under test); distinct by case id (TLC: IdsUnique)" % pool,
+                "the parser (so the verdict is about the rule under test); distinct by case id (TLC: IdsUnique). Plus every key of "
+                "SyltShapesFam (one program each, compiled without std, accepted ones loaded): function flavour x loop-carrying context x "
+                "word x position x own loop or not, and arm multiset (enums of 1-%d variants, <= variants+1 arms over the variants and one "
+                "unknown name, 3 orders) x bindings x else x statement/expression x scrutinee; non-trivial when the program is accepted where "
+                "the rule accepts, or gets past the parser where the rule rejects; distinct by key" % (pool, maxv),
            samples=[{"id": recs[i]["id"], "clause": recs[i]["clause"], "base": recs[i]["base"]["class"],
                      "planted": recs[i]["planted"]["class"], "planted_error_kinds": recs[i]["planted"]["kinds"]} for i in sample_ix],
            known_findings_hit=verdicts.known_hits)
-    ev.assume("a `pu` start is within 'a start function of type fn -> void' (used as an accepted control); `from other use start` is left out",
+    ev.assume("one variant may be listed by several arms of a case (the unchanged compiler accepts a total case with a repeated arm): only the "
+              "SET of listed names counts for totality",
+              "a `pu` start is within 'a start function of type fn -> void' (used as an accepted control); `from other use start` is left out",
               "minilua's loader stands in for Lua 5.3's (break outside a loop, goto without a visible label, syntax errors are load errors)",
               "the printer renders the case ASTs faithfully; a planted program stopped by the parser is counted as a generator problem, not as a rejection")
     rc = verdicts.finish()
